@@ -892,6 +892,19 @@ pub fn c20(cfg: &Cfg, idx: u64, st: &mut Stats) {
         st.count("corrupt.boundary_footers_on_artifact_above_1MiB", n);
         return;
     }
+    if idx == sweeps + 2 {
+        // a file just above 4 GiB (2^32 + 4: the checksummed region is 2^32
+        // bytes) that opens: 32-bit offsets or lengths anywhere in open /
+        // verify. First pass only (the checked build turns a wrapped counter
+        // into a panic; without checks it could become a loop that never ends).
+        if crate::driver::build_profile() != "plain" {
+            let task = TaskSpec { front: Front::Set, registry: None, ops: vec![Op::Ins(b"a".to_vec(), 0)], fin: Fin::IntoInner };
+            let cc = CorruptCase { base: Base::Build(task), muts: vec![Mutation::PadTo { len: (1u64 << 32) + 4 }] };
+            st.count("probe.c20_file_of_2pow32_plus_4_bytes", 1);
+            st.report("C20", &Case::Corrupt(cc));
+        }
+        return;
+    }
     if idx == sweeps + 1 {
         // files of "round" sizes: 2^k + d for k = 12..23 and m MiB + d, each
         // with a version-3 header and a footer that opens (root address =
